@@ -22,8 +22,9 @@ import (
 // at their place in O.
 
 type prePart struct {
-	key  string // path of the original relative to the project root (src/o0a.js)
-	text string
+	key      string // path of the original relative to the project root (src/o0a.js)
+	text     string
+	unmapped bool // code the earlier step added itself: no original, announced by a one-field segment
 }
 
 type preSeg struct {
@@ -79,7 +80,26 @@ type sectionJSON struct {
 
 // encodeMappings writes the segments (sorted by offset) relative to the generated position (baseLine, baseCol).
 // srcIndex translates a part index into an index of the `sources` array.
-func encodeMappings(g string, starts []int, segs []preSeg, baseLine, baseCol int, srcIndex []int, names *[]string) string {
+func encodeMappings(g string, starts []int, segs []preSeg, baseLine, baseCol int, srcIndex []int, names *[]string, unsorted bool) string {
+	if unsorted {
+		// the segments of each generated line in reverse order (negative column deltas): legal, and esbuild sorts them
+		var out []preSeg
+		for i := 0; i < len(segs); {
+			l, _ := pos16(g, starts, segs[i].off)
+			j := i
+			for j < len(segs) {
+				if lj, _ := pos16(g, starts, segs[j].off); lj != l {
+					break
+				}
+				j++
+			}
+			for k := j - 1; k >= i; k-- {
+				out = append(out, segs[k])
+			}
+			i = j
+		}
+		segs = out
+	}
 	var sb strings.Builder
 	nameIdx := map[string]int{}
 	for i, n := range *names {
@@ -145,7 +165,7 @@ func asciiJSON(b []byte) []byte {
 
 var preInlineSeps = []string{" ", "  ", "\t", " /* é */ ", " /* 😀😀 */ ", "\u00a0", "   ", " /* 𝒳 */\t", "\u3000"}
 var preNewlineSeps = []string{"\n", "\r\n", "\n\n  ", "\n\t", "\r", "\u2028", "\u2029 ", " // é😀\n", "\n/* 😀\n */ ", "\r\n\r\n", "\n    ", "\n/* 𝒳𝒳 */ "}
-var preHeaders = []string{"", "// generated é😀\n", "/* hdr */ ", "\r\n\r\n", "/*\u2028*/", "/* 𝒳 */\t/* 𝒳 */ ", "// a\r// b\r\n"}
+var preHeaders = []string{"", "\ufeff", "\ufeff/* 😀 */ ", "// generated é😀\n", "/* hdr */ ", "\r\n\r\n", "/*\u2028*/", "/* 𝒳 */\t/* 𝒳 */ ", "// a\r// b\r\n"}
 
 var noBreakAfter = map[string]bool{"return": true, "break": true, "continue": true, "throw": true, "yield": true, "async": true, "get": true, "set": true, "static": true, "let": true}
 var noBreakBefore = map[string]bool{"=>": true, "++": true, "--": true}
@@ -159,10 +179,18 @@ func preStep(rt *rapid.T, gname string, parts []prePart, c *Case) bool {
 	withNames := boolGen.Draw(rt, "pre-names")
 	content := pick(rt, "pre-content", []string{"all", "all", "none", "first-null"})
 	useRoot := uniform(rt, "pre-sourceroot", 3) == 0
-	sections := len(parts) > 1 && boolGen.Draw(rt, "pre-sections")
-	reverse := len(parts) > 1 && !sections && boolGen.Draw(rt, "pre-reverse-sources")
+	mapped := 0
+	for _, p := range parts {
+		if !p.unmapped {
+			mapped++
+		}
+	}
+	sections := mapped > 1 && mapped == len(parts) && boolGen.Draw(rt, "pre-sections")
+	reverse := mapped > 1 && !sections && boolGen.Draw(rt, "pre-reverse-sources")
 	asciiEsc := boolGen.Draw(rt, "pre-ascii-json")
 	lead := uniform(rt, "pre-unmapped-lead", 4) == 0
+	unsorted := uniform(rt, "pre-unsorted", 6) == 0
+	rename := uniform(rt, "pre-rename", 3) == 0 // play a renaming compiler: mk5_0 becomes r5_0 and `names` records mk5_0
 
 	var g strings.Builder
 	var segs []preSeg
@@ -207,16 +235,28 @@ func preStep(rt *rapid.T, gname string, parts []prePart, c *Case) bool {
 			g.WriteString(sep)
 			if i == 0 {
 				partStart[k] = g.Len()
+				if part.unmapped {
+					segs = append(segs, preSeg{off: g.Len(), src: -1})
+				}
 			}
 			_, isMarker := markerKey(t)
-			if isMarker || density == "dense" || (density == "mixed" && boolGen.Draw(rt, "pre-seg")) {
+			if part.unmapped {
+				// no segment: everything up to the next mapped token is unmapped
+			} else if isMarker || density == "dense" || (density == "mixed" && boolGen.Draw(rt, "pre-seg")) {
 				s := preSeg{off: g.Len(), src: k, line: t.Line, co: t.Col16}
-				if withNames && t.Kind == jsref.TIdent && isMarker {
-					s.name = t.Ident
+				if (withNames || rename) && isIdentLike(t) && isMarker {
+					s.name = identName(t)
 				}
 				segs = append(segs, s)
 			}
-			g.WriteString(t.Raw)
+			if rename && isIdentLike(t) && isMarker {
+				if t.Kind == jsref.TPrivateName {
+					g.WriteString("#")
+				}
+				g.WriteString("r" + strings.TrimPrefix(t.Ident, "mk"))
+			} else {
+				g.WriteString(t.Raw)
+			}
 		}
 	}
 	g.WriteString(pick(rt, "pre-tail", []string{"\n", "\r\n", " ", "\n\n"}))
@@ -262,7 +302,7 @@ func preStep(rt *rapid.T, gname string, parts []prePart, c *Case) bool {
 		if content == "first-null" && len(order) == 1 {
 			m.SourcesContent = []*string{nil}
 		}
-		m.Mappings = encodeMappings(code, starts, segs, baseLine, baseCol, srcIndex, &m.Names)
+		m.Mappings = encodeMappings(code, starts, segs, baseLine, baseCol, srcIndex, &m.Names, unsorted)
 		return m
 	}
 	var raw []byte
@@ -290,9 +330,11 @@ func preStep(rt *rapid.T, gname string, parts []prePart, c *Case) bool {
 		}
 		raw, _ = json.Marshal(doc)
 	} else {
-		all := make([]int, len(parts))
+		var all []int
 		for k := range parts {
-			all[k] = k
+			if !parts[k].unmapped {
+				all = append(all, k)
+			}
 		}
 		m := mkMap(all, segs, 0, 0)
 		m.File = gname
@@ -329,11 +371,20 @@ func genPreStep(rt *rapid.T, c *Case) {
 			g2 := &mg{t: rt, file: 10 + i}
 			parts = append(parts, prePart{key: fmt.Sprintf("src/o%db.js", i), text: g2.program(1+uniform(rt, "nstmts2", 3), false, nil)})
 		}
+		if chance(rt, "pre-unmapped", 12) {
+			// code of the earlier step's own (a helper, a wrapper): present in G, explicitly unmapped
+			g3 := &mg{t: rt, file: 20 + i}
+			u := prePart{text: g3.program(1+uniform(rt, "nstmts3", 2), false, nil), unmapped: true}
+			at := 1 + uniform(rt, "pre-unmapped-at", len(parts))
+			parts = append(parts[:at], append([]prePart{u}, parts[at:]...)...)
+		}
 		if !preStep(rt, gname, parts, c) {
 			rt.Skip("jsref cannot tokenize a generated original")
 		}
 		for _, p := range parts {
-			c.Originals[p.key] = p.text
+			if !p.unmapped {
+				c.Originals[p.key] = p.text
+			}
 		}
 	}
 }
@@ -341,6 +392,7 @@ func genPreStep(rt *rapid.T, c *Case) {
 // ----------------------------------------------------------------------------- reading an input map back (case validation)
 
 type flatSeg struct {
+	hasSource         bool
 	genLine, genCol   int
 	key               string // original file (project-relative path)
 	origLine, origCol int
@@ -373,17 +425,18 @@ func flattenInputMap(raw []byte, mapDir string) ([]flatSeg, error) {
 	}
 	var out []flatSeg
 	for _, s := range secs {
-		m, err := smref.Parse(s.raw)
+		m, err := smref.ParseUnsorted(s.raw)
 		if err != nil {
 			return nil, err
 		}
 		for _, sg := range m.Segments {
-			if !sg.HasSource {
-				continue
-			}
-			f := flatSeg{genLine: sg.GenLine + s.line, genCol: sg.GenCol, origLine: sg.OrigLine, origCol: sg.OrigCol}
+			f := flatSeg{hasSource: sg.HasSource, genLine: sg.GenLine + s.line, genCol: sg.GenCol, origLine: sg.OrigLine, origCol: sg.OrigCol}
 			if sg.GenLine == 0 {
 				f.genCol += s.col
+			}
+			if !sg.HasSource {
+				out = append(out, f)
+				continue
 			}
 			f.key = path.Join(mapDir, m.SourceRoot+m.Sources[sg.Source])
 			if sg.HasName {
